@@ -35,4 +35,17 @@ MUTANTS = {
         ("deduction: unsat not recognised", [(SUGAR, 'if "unsat" in out[0]:', 'if "unsat " in out[0]:')]),
         ("solve(): sol of keys not written back", [(SOLV, "                self.variables[i].sol = answer[i]\n        return True", "                pass\n        return True")]),
     ],
+    "C12": [
+        ("IntArray1D.__rsub__ operand order", [(ARR, "    def __rsub__(self, other: IntOperand1D) -> \"IntArray1D\":\n        return _elementwise(Op.SUB, self.shape, [other, self])", "    def __rsub__(self, other: IntOperand1D) -> \"IntArray1D\":\n        return _elementwise(Op.SUB, self.shape, [self, other])")]),
+        ("_elementwise takes element 0 of 2nd operand", [(ARR, "                expr_operands.append(operand.data[i])", "                expr_operands.append(operand.data[i if j == 0 else 0])")]),
+        ("conv2d window width uses height", [(ARR, "component = self[y : y + height, x : x + width]", "component = self[y : y + height, x : x + height]")]),
+        ("four_neighbors lower bound", [(ARR, "    if y2 < height - 1:\n        ret.append(array[y2 + 1, x2])", "    if y2 < height - 2:\n        ret.append(array[y2 + 1, x2])")]),
+        ("BoolArray2D.__ror__ uses AND", [(ARR, "    def __ror__(self, other: BoolOperand2D) -> \"BoolArray2D\":\n        return _elementwise(Op.OR, self.shape, [other, self])", "    def __ror__(self, other: BoolOperand2D) -> \"BoolArray2D\":\n        return _elementwise(Op.AND, self.shape, [other, self])")]),
+        ("BoolArray1D.then reversed", [(ARR, "    def then(self, other: BoolOperand1D) -> \"BoolArray1D\":\n        res = _elementwise(Op.IMP, self.shape, [self, other])", "    def then(self, other: BoolOperand1D) -> \"BoolArray1D\":\n        res = _elementwise(Op.IMP, self.shape, [other, self])")]),
+        ("fold_and literal False ignored", [("cspuz/constraints.py", "            if x is False:\n                return BoolExpr(Op.BOOL_CONSTANT, [False])", "            if x is False:\n                continue")]),
+        ("no shape check in _elementwise", [(ARR, "            if operand.shape is not None and operand.shape != shape:", "            if operand.shape is not None and len(operand.shape) != len(shape):")]),
+        ("IntArray2D.__gt__ is GE", [(ARR, "    def __gt__(self, other: IntOperand2D) -> \"BoolArray2D\":\n        return _elementwise(Op.GT, self.shape, [self, other])", "    def __gt__(self, other: IntOperand2D) -> \"BoolArray2D\":\n        return _elementwise(Op.GE, self.shape, [self, other])")]),
+        ("cond fn accepts int condition again", [("cspuz/constraints.py", "        res = _make_int_expr(Op.IF, [c, t, f])  # type: ignore\n        if res is NotImplemented:\n            raise TypeError(\"unsupported argument type(s) for 'cond'\")\n        return res", "        return IntExpr(Op.IF, [c, t, f])")]),
+        ("alldifferent helper skips nested tuples", [("cspuz/constraints.py", "    for x in flatten_iterator(*args):\n        if isinstance(x, int):\n            operands.append(x)", "    for x in flatten_iterator(*[a for a in args if not isinstance(a, tuple)]):\n        if isinstance(x, int):\n            operands.append(x)")]),
+    ],
 }
